@@ -19,7 +19,7 @@ ELEM = "[]"
 
 
 class Obj:
-    __slots__ = ("kind", "node", "fn", "mod", "sorted", "src", "label")
+    __slots__ = ("kind", "node", "fn", "mod", "sorted", "src", "label", "deep")
 
     def __init__(self, kind, node, fn, mod, label=""):
         self.kind = kind      # dict | list | copy | loaded | loadedchild | bytes | other
@@ -27,6 +27,7 @@ class Obj:
         self.fn = fn
         self.mod = mod
         self.sorted = False   # copy made by dict(sorted(X.items())) with default ordering
+        self.deep = False     # ... applied recursively to nested dictionaries
         self.src = None       # for copies: the expression copied
         self.label = label
 
@@ -54,13 +55,18 @@ class Insertion:
         self.how = how        # 'store' | 'update' | 'setdefault' | 'append' | 'extend' | 'aug' | 'del'
 
 
-def is_sorted_items_copy(res, call, fn, mod):
+def _plain_sorted_items(res, call, fn, mod):
     """dict(sorted(X.items())) / dict(sorted(list(X.items())))  with default ordering -> X expr, else None."""
     if not (isinstance(call, ast.Call) and len(call.args) == 1 and not call.keywords):
         return None
     if not any(k == ("ext", "builtins.dict") or k == ("ext", "collections.OrderedDict") for k in res.kinds(call.func, fn, mod)):
         return None
     inner = call.args[0]
+    return _sorted_items_source(res, inner, fn, mod)
+
+
+def _sorted_items_source(res, inner, fn, mod):
+    """sorted(X.items()) / sorted(list(X.items())) with default ordering -> X."""
     if not (isinstance(inner, ast.Call) and len(inner.args) == 1 and not inner.keywords
             and any(k == ("ext", "builtins.sorted") for k in res.kinds(inner.func, fn, mod))):
         return None
@@ -71,6 +77,82 @@ def is_sorted_items_copy(res, call, fn, mod):
     if isinstance(x, ast.Call) and isinstance(x.func, ast.Attribute) and x.func.attr == "items" and not x.args:
         return x.func.value
     return None
+
+
+def sorted_copy_info(res, expr, fn, mod, _seen=None):
+    """(source expr, deep) if `expr` builds a dictionary with the keys of `source` in ascending order:
+
+      dict(sorted(X.items()))                                  -> (X, False)
+      {k: v for k, v in sorted(X.items())}                     -> (X, False)
+      {k: g(v) [if ... else v] for k, v in sorted(X.items())}  -> (X, True) when g sorts its argument the same way (recursion)
+      h(X)  where every return of the package function h is a sorted copy of its only parameter -> (X, deep of h)
+    else None."""
+    _seen = _seen or set()
+    x = _plain_sorted_items(res, expr, fn, mod)
+    if x is not None:
+        return x, False
+    if isinstance(expr, ast.DictComp) and len(expr.generators) == 1 and not expr.generators[0].ifs:
+        g = expr.generators[0]
+        src = _sorted_items_source(res, g.iter, fn, mod)
+        t = g.target
+        if src is not None and isinstance(t, ast.Tuple) and len(t.elts) == 2 and all(isinstance(e, ast.Name) for e in t.elts) \
+                and isinstance(expr.key, ast.Name) and expr.key.id == t.elts[0].id:
+            vname = t.elts[1].id
+            v = expr.value
+            if isinstance(v, ast.Name) and v.id == vname:
+                return src, False
+            branches = [v.body, v.orelse] if isinstance(v, ast.IfExp) else [v]
+            ok = True
+            deep = False
+            for b in branches:
+                if isinstance(b, ast.Name) and b.id == vname:
+                    continue
+                if isinstance(b, ast.Call) and len(b.args) == 1 and isinstance(b.args[0], ast.Name) and b.args[0].id == vname and not b.keywords:
+                    tg = [k[1] for k in res.kinds(b.func, fn, mod) if k[0] == "func"]
+                    if tg and all(t_ is fn or _function_sorts(res, t_, _seen) for t_ in tg):
+                        deep = True
+                        continue
+                ok = False
+            if ok:
+                return src, deep
+        return None
+    if isinstance(expr, ast.Call) and len(expr.args) == 1 and not expr.keywords:
+        tg = [k[1] for k in res.kinds(expr.func, fn, mod) if k[0] == "func"]
+        others = [k for k in res.kinds(expr.func, fn, mod) if k[0] not in ("func",)]
+        if tg and not others:
+            infos = [_function_sorts(res, t_, _seen) for t_ in tg]
+            if all(infos):
+                return expr.args[0], any(i[1] for i in infos)
+    return None
+
+
+def _function_sorts(res, f, seen):
+    """(True, deep) if every return of package function f is a sorted copy of its single (non-self) parameter."""
+    if f in seen:
+        return (True, True)       # recursive use: assumed while being established (co-induction on the same definition)
+    seen = seen | {f}
+    params = [p for p in f.params if p != f.self_name]
+    if len(params) != 1:
+        return None
+    rets = [n.value for n in own_nodes(f.node) if isinstance(n, ast.Return)]
+    if not rets or any(r is None for r in rets):
+        return None
+    deep = False
+    for r in rets:
+        info = sorted_copy_info(res, r, f, f.module, seen)
+        if info is None:
+            return None
+        src, d = info
+        if not (isinstance(src, ast.Name) and src.id == params[0]):
+            return None
+        deep = deep or d
+    return (True, deep)
+
+
+def is_sorted_items_copy(res, call, fn, mod):
+    """Source expression X if `call` builds a key-sorted copy of X (see sorted_copy_info), else None."""
+    info = sorted_copy_info(res, call, fn, mod)
+    return info[0] if info else None
 
 
 class PointsTo:
@@ -217,6 +299,12 @@ class PointsTo:
                 self._add(self.field, (o, ck if ck is not None else STAR), self.pts(v, fn, mod))
             return {o}
         if isinstance(e, ast.DictComp):
+            info = sorted_copy_info(self.res, e, fn, mod)
+            if info is not None:
+                o = self._obj("copy", e, fn, mod)
+                o.sorted, o.deep, o.src = True, info[1], info[0]
+                self._add(self.var, ("copysrc", id(e)), self.pts(info[0], fn, mod))
+                return {o}
             o = self._obj("dict", e, fn, mod)
             self._add(self.field, (o, STAR), self.pts(e.value, fn, mod))
             return {o}
@@ -300,10 +388,12 @@ class PointsTo:
 
     def _call(self, e, fn, mod):
         out = set()
-        x = is_sorted_items_copy(self.res, e, fn, mod)
-        if x is not None:
+        info = sorted_copy_info(self.res, e, fn, mod)
+        if info is not None:
+            x = info[0]
             o = self._obj("copy", e, fn, mod)
             o.sorted = True
+            o.deep = info[1]
             o.src = x
             self._add(self.var, ("copysrc", id(e)), self.pts(x, fn, mod))
             return {o}
@@ -572,28 +662,35 @@ class PointsTo:
             raise RuntimeError("points-to did not converge")
 
     # ------------------------------------------------------------------ queries
-    def key_paths(self, roots, maxlen=8):
-        """{Obj: set(key paths)} for every object reachable through fields from the root objects."""
+    def key_paths(self, roots, maxlen=8, per_object=4):
+        """{Obj: set(key paths)} for every object reachable through fields from the root objects.
+
+        Breadth first (shortest paths first); at most `per_object` paths are kept per object, which keeps recursive
+        structures (file trees, self-containing dictionaries) from exploding."""
+        from collections import deque
         out = {}
-        work = [(o, ()) for o in roots]
+        work = deque((o, ()) for o in roots)
+        steps = 0
         while work:
-            o, path = work.pop()
+            o, path = work.popleft()
+            steps += 1
+            if steps > 200000:
+                break
             s = out.setdefault(o, set())
-            if path in s or len(path) > maxlen:
-                continue
-            if any(p == path for p in s):
+            if path in s or len(path) > maxlen or len(s) >= per_object:
                 continue
             s.add(path)
-            keys = set(self.keys_of(o))
-            for k in keys:
+            for k in set(self.keys_of(o)):
                 for c in self.getfield(o, k):
                     # do not extend a path with the same key twice in a row through recursion (file tree)
                     if len(path) >= 2 and path[-1] == k == path[-2]:
                         continue
+                    if c in out and len(out[c]) >= per_object:
+                        continue
                     work.append((c, path + (k,)))
             if o.kind == "copy":
                 for so in self._copy_sources(o):
-                    if so not in out or path not in out[so]:
+                    if so not in out or (path not in out[so] and len(out[so]) < per_object):
                         work.append((so, path))
         # lazily created children of decoded structures
         for c in list(self.objs.values()):
